@@ -1144,6 +1144,13 @@ unaryexpr(struct scope *s)
 	return e;
 }
 
+static void
+castcheck(struct type *to, struct type *from)
+{
+	if (to != &typevoid && !(from->prop & PROPSCALAR))
+		error(&tok.loc, "cast operand must have scalar type");
+}
+
 static struct expr *
 castexpr(struct scope *s)
 {
@@ -1178,6 +1185,8 @@ castexpr(struct scope *s)
 		}
 		if (t != &typevoid && !(t->prop & PROPSCALAR))
 			error(&tok.loc, "cast type must be scalar");
+		if (ct)
+			castcheck(ct, t);
 		e = mkexpr(EXPRCAST, t, NULL);
 		e->toeval = toeval;
 		*end = e;
@@ -1187,8 +1196,8 @@ castexpr(struct scope *s)
 	e = unaryexpr(s);
 
 done:
-	if (ct && ct != &typevoid && !(e->type->prop & PROPSCALAR))
-		error(&tok.loc, "cast operand must have scalar type");
+	if (ct)
+		castcheck(ct, e->type);
 	*end = e;
 	return r;
 }
